@@ -430,4 +430,76 @@ theorem regex_literals :
     PB.Gen.Updater.fileVersionRegex = "_v[0-9]+-[0-9]+-[0-9]+(-[a-z]+)?" ∧
     PB.Gen.Updater.rawVersionRegex = "^[0-9]+\\.[0-9]+\\.[0-9]+(-[a-z]+)?$" := by decide
 
+/-! ### Non-vacuity: the hypotheses are satisfiable and every branch occurs -/
+
+section Examples
+open Ex
+
+-- `TestVersionSelection`: the four flag settings of the test and the blacklist step
+example : (testRes.selectVersion ⟨true, true, true⟩).selected = some (v 0 0 0) := by decide
+example : (testRes.selectVersion ⟨true, false, true⟩).selected = some (v 1 2 6 "beta") := by decide
+example : (testRes.selectVersion ⟨true, false, false⟩).selected = some (v 1 2 5) := by decide
+example : (testRes.selectVersion ⟨false, false, false⟩).selected = some (v 1 2 3) := by decide
+example : ((testRes.selectVersion ⟨false, false, false⟩).blacklist ⟨false, false, false⟩ (s "1.2.3")).1.selected
+    = some (v 1 2 2) := by decide
+example : VerNodup testVersions := by decide
+-- the dev step with a pre-release of 0.0.0 sorting behind the dev version
+example : (Res.selectVersion ⟨false, true, false⟩ { versions := [{ ver := v 1 0 0, avail := true },
+    { ver := v 0 0 0, avail := true }, { ver := v 0 0 0 "alpha", avail := true, pre := true }] }).selected
+    = some (v 0 0 0) := by decide
+-- the current release wins over newer selectable versions; not when it is not selectable
+example : (Res.selectVersion ⟨false, false, true⟩ { versions := [{ ver := v 2 0 0, avail := true },
+    { ver := v 1 0 0, avail := true, cur := true }] }).selected = some (v 1 0 0) := by decide
+example : (Res.selectVersion ⟨false, false, true⟩ { index := some true, versions := [{ ver := v 2 0 0, avail := true },
+    { ver := v 1 0 0, cur := true }] }).selected = some (v 2 0 0) := by decide
+-- a blacklisted version as last resort: pre-releases are off and only pre-releases exist
+example : (Res.selectVersion ⟨true, false, false⟩ { versions := preOnly }).selected = some (v 1 2 0 "rc") := by decide
+example : LastResort ⟨true, false, false⟩ none preOnly := by
+  refine ⟨?_, ?_, ?_⟩
+  · rintro ⟨c, ⟨hm, hc, _⟩, _⟩
+    simp only [preOnly, List.mem_cons, List.not_mem_nil, or_false] at hm
+    rcases hm with rfl | rfl <;> simp at hc
+  · rintro ⟨h, _⟩; cases h
+  · rintro ⟨x, hm, hp, _⟩
+    simp only [preOnly, List.mem_cons, List.not_mem_nil, or_false] at hm
+    rcases hm with rfl | rfl <;> simp at hp
+-- the last valid version cannot be blacklisted; the first of two can
+example : ((Res.blacklist {} { versions := [{ ver := v 1 0 0, avail := true }, { ver := v 0 0 0, avail := true }] } (s "1.0.0")).2)
+    = some .last := by decide
+example : ((Res.blacklist {} { versions := [{ ver := v 1 0 0, avail := true }, { ver := v 1 1 0, avail := true }] } (s "1.0.0")).2)
+    = none := by decide
+-- Purge: six versions, keep 2: the newest three stay listed, the files of the three oldest go
+example : (six.purge 2).versions.map (·.ver) = [v 1 5 0, v 1 4 0, v 1 3 0] ∧
+    (six.purge 2).disk = [(v 1 5 0, 0), (v 1 4 0, 0), (v 1 3 0, 0)] := by decide
+example : (six.purge 2).versions.length ≠ six.versions.length := by decide
+example : Required six (v 1 5 0) := Or.inl rfl
+example : ResInv six := by
+  refine ⟨by decide, ?_, ?_, ?_⟩
+  · intro w hw; cases hw; exact ⟨{ ver := v 1 5 0, avail := true }, by decide, rfl⟩
+  · intro w hw; cases hw; exact ⟨{ ver := v 1 5 0, avail := true }, by decide, rfl⟩
+  · unfold ListingSound; decide
+-- versions added behind the sorted part: the newest ones survive, 1.2.0 (active, selected) too
+example : (unsortedTail.purge 2).versions.map (·.ver) = [v 2 2 0, v 2 1 0, v 2 0 0, v 1 2 0, v 1 1 0, v 1 0 0] := by decide
+example : (unsortedTail.purge 0).disk.length = 6 := by decide
+example : (Res.purge { unsortedTail with active := none, selected := some (v 2 2 0) } 1).versions.map (·.ver)
+    = [v 2 2 0, v 2 1 0, v 2 0 0] := by decide
+-- a whole history: non-canonical spellings are merged, the current release is downloaded, old versions purged
+example : ((run {} history).get (s "app.exe")).map (fun r => (r.selected, r.active, r.versions.map (·.ver), r.disk.length))
+    = some (some (v 1 2 0), some (v 1 2 0), [v 1 3 0 "beta", v 1 2 0, v 1 1 0, v 1 0 0], 4) := by decide
+-- file names
+example : getVersionedPath (s "path/to/file.exe") (s "1.2.3-beta") = s "path/to/file_v1-2-3-beta.exe" := by decide
+example : getIdentifierAndVersion (s "path/to/file_v1-2-3-beta.exe") = some (s "path/to/file.exe", s "1.2.3-beta") := by decide
+example : ValidIdentifier (s "path/to/file.exe") ∧ matchRawVersion (s "1.2.3-beta") = true := by decide
+example : VersionBeforeExtension (s "path/to/file_v1-2-3-beta.exe") := by
+  intro b m a h
+  have : findFileVer (pathSplit (s "path/to/file_v1-2-3-beta.exe")).2 = some (s "file", s "_v1-2-3-beta", s ".exe") := by decide
+  rw [this] at h; cases h; exact ⟨by decide, Or.inr ⟨_, rfl⟩⟩
+-- outside the documented form the round trip is lost (why the hypotheses are there)
+example : getIdentifierAndVersion (getVersionedPath (s "tool_v2-0-0.exe") (s "1.0.0")) ≠ some (s "tool_v2-0-0.exe", s "1.0.0") := by decide
+example : ¬ValidIdentifier (s "tool_v2-0-0.exe") := by decide
+example : getIdentifierAndVersion (s "a.b_v1-2-3.c") = some (s "a.b.c", s "1.2.3") ∧
+    getVersionedPath (s "a.b.c") (s "1.2.3") ≠ s "a.b_v1-2-3.c" := by decide
+
+end Examples
+
 end PB.C19
